@@ -84,4 +84,35 @@ def c05(tier, seed, work):
     return rep
 
 
-PLANS = {"C02": c02, "C05": c05}
+def list_consts(**kw):
+    c = dict(Alphabet={45, 47, 97, 98}, MaxLen=3, MaxSet=2, PrefixLen=2, Delims={0, 47, 45, 97}, FsDomain=False,
+             CfgName="plain", Shard=0, Shards=1)
+    c.update(kw)
+    return c
+
+
+def c03(tier, seed, work):
+    rep = Report("C03", tier, seed)
+    n = 3 if tier == "thorough" else 2
+    common = dict(view=None, emit=None, tlc_workers=8, timeout=3000)
+    # key-value backends: every key set x prefix x delimiter in {none,'/','-','a'} x V1/V2
+    tour_stage(rep, work, "kv", "MC_List", list_consts(MaxSet=n), ["mem", "bolt"],
+               invariants=["EmitInv", "ListExact"], **common)
+    # fs backends: key sets inside the fs key domain, delimiter none or '/'
+    tour_stage(rep, work, "fs", "MC_List", list_consts(MaxSet=n, FsDomain=True, Delims={0, 47}),
+               ["multimem", "multios"], invariants=["EmitInv"], **common)
+    tour_stage(rep, work, "single", "MC_List", list_consts(MaxSet=n, FsDomain=True, Delims={0, 47}, CfgName="single"),
+               ["singlemem", "singleos"], invariants=["EmitInv"], **common)
+    # richer keys (UTF-8, blanks, characters needing URL escaping) through an
+    # order- and structure-preserving substitution of the key bytes
+    tour_stage(rep, work, "kv-rich", "MC_List", list_consts(MaxSet=2, MaxLen=2, Delims={0, 47}), ["mem", "bolt", "multimem"],
+               keys="rich", invariants=["EmitInv"], **common)
+    rep.assumptions += [
+        "keys neither start nor end with the delimiter, prefixes do not start with it (the property's domain)",
+        "fs backends: no key is a directory of another key, no empty path segments (DESIGN 5.3)",
+        "every bucket content is reached by: write+delete of two dead keys, write of every live key, overwrite in reverse order",
+    ]
+    return rep
+
+
+PLANS = {"C02": c02, "C05": c05, "C03": c03}
